@@ -40,9 +40,15 @@ T3 == [name  |-> <<"Plain a b name">>,
        tags  |-> <<>>,
        steps |-> << Step(<<"s a">>, <<"doc b", NL, "a">>, << <<"a">>, <<"b">> >>, << << <<"x">>, <<>> >>, << <<"b">>, <<"a b">> >> >>) >>]
 \* a third column <c> (unknown until AddCol) and a placeholder <u> that never is a column
-T4 == [name  |-> <<"N ", PC, PA, " ", PU>>,
-       tags  |-> << <<"t", PC>>, <<"x", PA>> >>,
-       steps |-> << Step(<<"s ", PC, " ", PU, PB>>, <<PC, NL, PU, " ", PA>>, << <<PC>>, <<PA, PU>> >>, << << <<PA, PC>>, <<"c">> >> >>) >>]
+\* ... and behave's pseudo-columns in the name, the tags and the step names
+PEN == Ph("examples.name")
+PEI == Ph("examples.index")
+PRX == Ph("row.index")
+PRI == Ph("row.id")
+T4 == [name  |-> <<"N ", PC, PA, " ", PU, " ", PRI, "/", PEN>>,
+       tags  |-> << <<"t", PC>>, <<"x", PA>>, <<"r", PRI>>, <<"i", PEI, "-", PRX>>, <<"n.", PEN>> >>,
+       steps |-> << Step(<<"s ", PC, " ", PU, PB, " ", PEN, " ", PRX>>, <<PC, NL, PU, " ", PA>>, << <<PC>>, <<PA, PU>> >>, << << <<PA, PC>>, <<"c">> >> >>),
+                    Step(<<"e ", PEI, ".", PRI>>, None, None, None) >>]
 \* an outline tag without placeholder whose text contains a character that Tag.make_name drops
 T5 == [name  |-> <<"O ", PA>>,
        tags  |-> << <<"p", "/", "q">>, <<"w", PA>> >>,
@@ -63,7 +69,9 @@ Codes4   == {5, 7, 13, 15}           \* values from {x, other column's name}
 CellsFor(ord, code) == LET va == Vals("a")[(code \div 4) + 1]  vb == Vals("b")[(code % 4) + 1]
                        IN IF ord = 1 THEN <<va, vb>> ELSE <<vb, va>>
 ColsFor(ord) == IF ord = 1 THEN <<"a", "b">> ELSE <<"b", "a">>
-BlockNames == << <<>>, <<"E1">>, <<"B ", UC, " a">> >>
+\* names of examples blocks: empty, plain, plain with blanks / unicode / a column name, and two with <column>
+\* placeholders of their own (rendered per row; visible through {examples.name} and <examples.name>)
+BlockNames == << <<>>, <<"E1">>, <<"B", " ", UC, " ", "a">>, <<"U.", PA>>, <<"like", " ", PB, "-", PA>> >>
 BlockTags  == << <<>>, << <<"e1">> >>, << <<"e1">>, <<"e.2">> >> >>
 Schemas == << <<"{name}", " -- @", "{row.id}", " ", "{examples.name}">>,        \* behave's default
               <<"{name}">>,
@@ -100,7 +108,7 @@ Bucket(c) == Hash(c) % NB
 
 MkBlock(c, bi) ==
    LET h == Hash(c)
-   IN [name |-> BlockNames[((h + bi) % 3) + 1], tags |-> BlockTags[(((h \div 3) + 2 * bi) % 3) + 1], cols |-> ColsFor(c.ords[bi]),
+   IN [name |-> BlockNames[((h + bi) % 5) + 1], tags |-> BlockTags[(((h \div 3) + 2 * bi) % 3) + 1], cols |-> ColsFor(c.ords[bi]),
        hline |-> 0,
        \* comment / blank lines between the rows of the examples table rotate with the case
        rows |-> [r \in DOMAIN c.rows[bi] |-> [cells |-> CellsFor(c.ords[bi], c.rows[bi][r]), line |-> 0,
@@ -170,11 +178,14 @@ OnCase(P) == ph = "case" => P
 \* ---------------------------------------------------------------- design-level laws
 StepTexts(s) == {s.name, s.doc} \cup Range(s.th) \cup UNION {Range(s.tr[r]) : r \in DOMAIN s.tr}
 AllTexts(o) == {o.name} \cup Range(o.tags) \cup UNION {StepTexts(o.steps[s]) : s \in DOMAIN o.steps}
+               \cup {o.blocks[bi].name : bi \in DOMAIN o.blocks}
 \* the code's sequential replace equals the simultaneous substitution for every text and every row of the domain
 SeqEqSim == OnCase(LET o == O IN
                    \A bi \in DOMAIN o.blocks : \A ri \in DOMAIN o.blocks[bi].rows : \A x \in AllTexts(o) :
-                      SeqRepl(x, o.blocks[bi].cols, o.blocks[bi].rows[ri].cells, 1)
-                      = SubstSim(x, o.blocks[bi].cols, o.blocks[bi].rows[ri].cells))
+                      LET blk == o.blocks[bi]  cells == blk.rows[ri].cells
+                          xcells == XCells(cells, SubstSim(blk.name, blk.cols, cells), bi, ri)
+                      IN /\ SeqRepl(x, blk.cols, cells, 1) = SubstSim(x, blk.cols, cells)
+                         /\ SeqRepl(x, XCols(blk.cols), xcells, 1) = SubstSim(x, XCols(blk.cols), xcells))
 \* ... it needs the domain: a cell that is itself a placeholder is substituted again by the code
 ASSUME SeqRepl(<<PA>>, <<"a", "b">>, << <<PB>>, <<"x">> >>, 1) = <<"x">>
 ASSUME SubstSim(<<PA>>, <<"a", "b">>, << <<PB>>, <<"x">> >>) = <<PB>>
@@ -190,10 +201,15 @@ TagsAgree(code, def) ==
    ELSE code # <<>> /\ Head(code) = Head(def) /\ TagsAgree(Tail(code), Tail(def))
 TagSafeTpl(o) == \A i \in DOMAIN o.tags : TagSafe(o.tags[i])
 CodeEqDef == OnCase(LET o == O IN TagSafeTpl(o) =>
-                LET C == ExpandCode(o, S)  D == ExpandDef(o, S)
+                LET C == ExpandCode(o, S)  D == ExpandDef(o, S)  P == Pairs(o)
+                    \* a tag that uses <examples.name> is made a valid tag by the code (blank -> _): compared for
+                    \* tag-safe examples names only
+                    TagsComparable(k) == LET blk == o.blocks[P[k][1]]
+                                         IN \/ \A i \in DOMAIN o.tags : PEN \notin Range(o.tags[i])
+                                            \/ TagSafe(SubstSim(blk.name, blk.cols, blk.rows[P[k][2]].cells))
                 IN /\ Len(C) = Len(D)
                    /\ \A k \in DOMAIN D : /\ C[k].name = D[k].name /\ C[k].line = D[k].line /\ C[k].steps = D[k].steps
-                                          /\ TagsAgree(C[k].tags, D[k].tags))
+                                          /\ TagsComparable(k) => TagsAgree(C[k].tags, D[k].tags))
 ASSUME MakeName(<<"p", "/", "q">>) = <<"p", "q">>        \* the alteration of literal tag text, as the code does it
 \* one scenario per row, block then row order, at the row's line
 CountOrder == OnCase(LET o == O  C == ExpandCode(o, S)  P == Pairs(o)
